@@ -1056,6 +1056,14 @@ def parse_left_assoc_binary_expr(toks):
 @parse_action(exponent_expr)
 def parse_right_assoc_binary_expr(toks):
     loc_start, toks, loc_end = toks
+    toks = list(toks)
+
+    # an exponent may carry its own sign (2 ^ -1): the atom rule
+    # leaves the sign tokens in front of its operand
+    signs = []
+    while len(toks) > 1 and toks[0] in ('-', '+'):
+        signs.append(toks.pop(0))
+
     assert len(toks) % 2 == 1
     node = toks[-1]
     for i in range(-2, -len(toks) - 1, -2):
@@ -1063,6 +1071,8 @@ def parse_right_assoc_binary_expr(toks):
         node = BinaryOp(toks[i-1], node, Operator.EXP)
         node.loc_start = loc_start
         node.loc_end = loc_end
+    for sign in reversed(signs):
+        node = UnaryOp(node, Operator.unary_op_from_token(sign))
     node.loc_start = loc_start
     node.loc_end = loc_end
     return node
